@@ -15,6 +15,8 @@ RULE = ('SIM: one case = one seeded history with exits of every status, grow/shr
 ASSUMPTIONS = ['shrink() is not issued while an earlier shrink victim is still exiting (it would pick the same process again; see DESIGN)']
 JOBS = 14
 SPEC_TIMEOUT = 900
+CONFIRM_ALONE = ('jobs_held_up_by_recycling', 'pool_hung_while_recycling', 'pool_size_not_restored',
+                 'job_failed_after_idle_worker_died')
 FLOORS = {
     'quick': {'sim:size_checks': 5000, 'sim:supervise_with_exits': 1000, 'sim:exit:recycle': 150,
               'sim:grow': 60, 'sim:shrink': 30, 'sim:counter_credit_checked': 2000},
